@@ -5,7 +5,8 @@
 (* The trace (ndjson, IOEnv.TRACE) was recorded from the real code by      *)
 (* harness `exec`: one event per public call, logged at the call's return. *)
 (* The world consists of scanner instances (`id`), each with its own mock  *)
-(* clock.  For every event this specification                              *)
+(* clock (the time unit of the world is HALF a millisecond).  For every   *)
+(* event this specification                                                *)
 (*   - steps the implementation-shaped MACHINE of that scanner with the    *)
 (*     logged arguments and compares the logged result (disagreement =     *)
 (*     DRIFT: the model no longer describes the code; not a verdict),      *)
